@@ -226,7 +226,15 @@ Proof.
     replace (Z.leb _ _) with true by (rewrite !st_go_len_cons in Hl; pose proof (st_go_len_nonneg r); lia).
     cbv beta iota delta [go_bind].
     rewrite h32_blocks_step.
-    h32_model_loads. cbv beta iota delta [mix w32 shl32]. rewrite ?N.lor_0_l, ?N.shiftl_0_r, ?n_byte32.
+    (* the model's three word loads, normalised on their own (not inside the big goal) *)
+    lazymatch goal with
+    | |- context [h32_loads ?blk ?tbl ?st] =>
+        let HL := fresh "HL" in
+        eassert (HL : h32_loads blk tbl st = _)
+          by (h32_model_loads; cbv beta iota delta [w32 shl32]; rewrite ?N.lor_0_l, ?N.shiftl_0_r, ?n_byte32; reflexivity);
+        rewrite HL; clear HL
+    end.
+    cbv beta iota delta [mix w32 shl32].
     set (blk := [b0; b1; b2; b3; b4; b5; b6; b7; b8; b9; b10; b11]).
     replace (pre ++ b0 :: b1 :: b2 :: b3 :: b4 :: b5 :: b6 :: b7 :: b8 :: b9 :: b10 :: b11 :: r) with ((pre ++ blk) ++ r) in *
       by (rewrite <- app_assoc; reflexivity).
